@@ -37,7 +37,11 @@ def _acc(res: Dict[str, Any], eng: Engine) -> None:
 def _vals_from_model(mr: MsgRun, model: Any) -> Dict[Any, int]:
     d = {}
     for l in mr.lay.leaves():
-        v = model.eval(mr.terms[l.path], model_completion=True).as_long()
+        t = mr.terms[l.path]
+        if z3.is_app_of(t, z3.Z3_OP_EXTRACT):  # free (out-of-range) leaf: the whole signed value
+            d[l.path] = model.eval(t.arg(0), model_completion=True).as_signed_long()
+            continue
+        v = model.eval(t, model_completion=True).as_long()
         if l.signed and v >> (l.n - 1):
             v -= 1 << l.n
         d[l.path] = v
@@ -54,8 +58,10 @@ def _payload(case: Case, mr: MsgRun, op: str, vals: Dict[Any, int], extra: Dict[
 
 
 def work(args: Tuple[Case, str]) -> Dict[str, Any]:
-    """op: 'encode' | 'roundtrip'"""
+    """op: 'encode' | 'roundtrip' | 'oob' (encode with integer leaves holding arbitrary 128-bit
+    values: the bits a field contributes must be a function of its low n bits only)"""
     case, op = args
+    free_bits = 128 if op == "oob" else None
     res = new_result(case)
     t00 = time.time()
     rng = random.Random(seed() * 7919 + hash(case.name) % 100003)
@@ -71,13 +77,14 @@ def work(args: Tuple[Case, str]) -> Dict[str, Any]:
             res["inconclusive"].append(f"{case.name}: generated module does not load: {type(e).__name__}: {e}")
             return res
         for msg, chain in case.messages:
-            mr = MsgRun(T, gen, mods[0], msg, chain)
+            mr = MsgRun(T, gen, mods[0], msg, chain, free_bits=free_bits)
             lay = mr.lay
             res["messages"] += 1
             res["leaves"] += len(lay.leaves())
             res["bits"] += lay.nbits
             eng = Engine(max_paths=MAX_PATHS)
             pysym.set_engine(eng)
+            nop = "roundtrip" if op == "roundtrip" else "encode"
             natives: List[Dict[str, Any]] = []  # native jobs
             checks: List[Tuple[str, Any]] = []  # how to check each native result
             try:
@@ -100,15 +107,15 @@ def work(args: Tuple[Case, str]) -> Dict[str, Any]:
                     s2 = d.encode()
                     return s, d, s2
 
-                for p in eng.explore(h_enc if op == "encode" else h_rt):
+                for p in eng.explore(h_rt if op == "roundtrip" else h_enc):
                     wm = p.witness()
                     wvals = _vals_from_model(mr, wm)
                     if p.exc is not None:
                         info = exc_info(p.exc, gen)
-                        natives.append({"message": mr.cls, "op": op, "values": vals_case(lay, wvals), "read": [list(map(list, l.path)) for l in lay.leaves()]})
+                        natives.append({"message": mr.cls, "op": nop, "values": vals_case(lay, wvals), "read": [list(map(list, l.path)) for l in lay.leaves()]})
                         checks.append(("exc", (mr, wvals, info)))
                         continue
-                    if op == "encode":
+                    if op != "roundtrip":
                         out = p.value
                         s_cells, dec, s2_cells = out.cells, None, None
                     else:
@@ -136,17 +143,17 @@ def work(args: Tuple[Case, str]) -> Dict[str, Any]:
                         continue
                     if r == "sat":
                         cvals = _vals_from_model(mr, model)
-                        natives.append({"message": mr.cls, "op": op, "values": vals_case(lay, cvals), "read": [list(map(list, l.path)) for l in lay.leaves()]})
+                        natives.append({"message": mr.cls, "op": nop, "values": vals_case(lay, cvals), "read": [list(map(list, l.path)) for l in lay.leaves()]})
                         checks.append(("cex", (mr, cvals, None)))
                         continue
                     # validation of the proxies: witness + extremes through native CPython must
                     # give what the symbolic terms evaluate to
-                    for vals in [wvals] + extreme_values(lay, rng, 1):
+                    for vals in [wvals] + extreme_values(lay, rng, 1, free_bits):
                         asg = values_to_assign(lay, mr.terms, vals)
                         if not all(z3.is_true(subst_eval(c, asg)) for c in p.pc):
                             continue
                         exp_bytes = bytes(subst_eval(cell8(c), asg).as_long() for c in s_cells).hex()
-                        natives.append({"message": mr.cls, "op": op, "values": vals_case(lay, vals), "read": [list(map(list, l.path)) for l in lay.leaves()]})
+                        natives.append({"message": mr.cls, "op": nop, "values": vals_case(lay, vals), "read": [list(map(list, l.path)) for l in lay.leaves()]})
                         checks.append(("wit", (mr, vals, exp_bytes)))
                     if len(res["samples"]) < 2:
                         res["samples"].append({"case": case.name, "message": mr.cls, "nbits": lay.nbits, "leaves": [f"{l.pname()}:{l.kind}{l.n}@{l.off}" for l in lay.leaves()][:12],
@@ -189,7 +196,7 @@ def work(args: Tuple[Case, str]) -> Dict[str, Any]:
                         res["inconclusive"].append(f"{case.name}.{mr.cls}: solver model did not reproduce natively ({kind}); values {vals_case(lay, vals)[:6]}")
                         continue
                     info = {"kind": kind, "native": o, "leaves": [[l.pname(), l.kind, l.n, l.off] for l in lay.leaves()], "key": cause_key(lay, op, o, vals)}
-                    res["violations"].append({"what": f"{case.name}.{mr.cls}: {bad}", "payload": _payload(case, mr, op, vals, {"native": o}), "confirmed": True, "info": info})
+                    res["violations"].append({"what": f"{case.name}.{mr.cls}: {bad}", "payload": _payload(case, mr, nop, vals, {"native": o}), "confirmed": True, "info": info})
     res["exec_s"] = round(time.time() - t00, 3)
     return res
 
